@@ -161,14 +161,14 @@ def run(rep):
         c = F.fn(nm + "::{closure#0}")
         rep.check(bool(c) and show(c.body) == "AsValue::as_value(v)", "T-CONTAINER", "T-CONTAINER/" + nm + "/element", c.sp if c else f.sp, "each element/value is converted with its own as_value", show(c.body) if c else "-")
     # ---- delegate (shared with C10)
-    for nm, want in (("<O as document::Document>::find", "Object::find(self, key)"), ("<&dyn value::Object as document::Document>::find", "Object::find(self, key)"),
-                     ("json::<impl document::Document for serde_json::Value>::find", "{if let &Value::Object($o) = self {return Object::find(o, key)}; Option::None}")):
+    for nm, via in (("<O as document::Document>::find", None), ("<&dyn value::Object as document::Document>::find", None),
+                    ("json::<impl document::Document for serde_json::Value>::find", "Object")):
         f = F.fn(nm)
         if f is None:
             rep.lost("DELEGATE", "DELEGATE/" + nm, "impl " + nm)
             continue
-        s = show(f.body)
-        rep.check(s == want, "DELEGATE", "DELEGATE/" + nm, f.sp, "Document::find delegates to the single Object::find with the key unchanged", s)
+        okd, det = q.delegates(f, "Object::find", via)
+        rep.check(okd, "DELEGATE", "DELEGATE/" + nm, f.sp, "Document::find delegates to the single Object::find with the key unchanged (a non-object json value has no fields)", det + " " + show(f.body)[:120])
     for i in F.items["impls"]:
         if i.get("trait") == "value::Object":
             rep.check("find" not in i["items"], "DELEGATE", "DELEGATE/no-override/" + i["self"], i["sp"], "Object impl does not override find", str(i["items"]))
@@ -178,4 +178,4 @@ def run(rep):
     rep.floor("DELEGATE", 6)
     rep.exhaustive = True
     rep.trusted.append("serde_yaml / serde_json parsers produce the Number representation they document (non-negative integers are u64)")
-    rep.assumptions.append("text-equality rules in this check (container adapters, delegates) are on 1-line bodies; a behaviour-preserving rewrite of one of them is reported as a violation to be re-reviewed")
+    rep.assumptions.append("container adapters are compared as canonical renderings of 1-line bodies (alpha-equivalent, helper-inlined); delegates are checked on their result leaves")
